@@ -423,6 +423,102 @@ _add(_mk_update_kinds('assign', ['op == 0', 'rk != 1'], 'assign at a symbolic ro
 _add(_mk_update_kinds('mask_drop', ['op != 0', 'vk == 0'], 'mask / drop (symbolic) at a symbolic row key (0, 1, :) and column'))
 
 
+# ---------------------------------------------------------------- bloc assignment with every value form over every block layout
+
+def body_bloc_forms(env, b0, b1, b2, b3, b4, form):
+    """assign.bloc[Boolean Frame] with an element, a 2-D array, a Frame, a Series keyed by (row, column) pairs, and apply(func);
+    one-row key pattern symbolic (4 cells of row 0 + one cell of row 1); the target frame in EVERY block layout."""
+    from vf import rt
+    flags = [[bool(b0), bool(b1), bool(b2), bool(b3)], [False, False, bool(b4), False]]
+    form = _pick((0, 1, 2, 3, 4), form)
+
+    def run():
+        sf = env.sf
+        from static_frame.core.type_blocks import TypeBlocks
+        rows = [[100 * (r + 1) + c for c in range(4)] for r in range(2)]
+        cols = [[rows[r][c] for r in range(2)] for c in range(4)]
+        index, columns = [10, 11], ['a', 'b', 'c', 'd']
+        vals = [[-(10 * (r + 1) + c) for c in range(4)] for r in range(2)]
+        key_cols = [[flags[r][c] for r in range(2)] for c in range(4)]
+        hit = [(r, c) for r in range(2) for c in range(4) if flags[r][c]]
+        if form == 0:
+            new = lambda r, c: -7        # noqa: E731
+        elif form == 4:
+            new = lambda r, c: -rows[r][c]     # noqa: E731
+        else:
+            new = lambda r, c: vals[r][c]      # noqa: E731
+        exp = ['F', index, columns, [[(new(r, c) if flags[r][c] else rows[r][c]) for c in range(4)] for r in range(2)]]
+        got = []
+        for lay in layouts.compositions(4):
+            if len({nd for nd, w in lay if w == 1}) > 1:
+                continue       # per width pattern: all one-column blocks 1-D, or all 2-D
+            f = sf.Frame(TypeBlocks.from_blocks(layouts.build_blocks(env, cols, 'int64', lay)), index=index, columns=columns)
+            key = sf.Frame(TypeBlocks.from_blocks(layouts.build_blocks(env, key_cols, 'bool', ((2, 4),))), index=index, columns=columns)
+            before = snapshot(env, f)
+            if form == 0:
+                r = f.assign.bloc[key](-7)
+            elif form == 1:
+                r = f.assign.bloc[key](env.array(vals, 'int64'))
+            elif form == 2:
+                r = f.assign.bloc[key](sf.Frame(env.array(vals, 'int64'), index=index, columns=columns))
+            elif form == 3:
+                if not hit:
+                    got.append([exp, True])
+                    continue
+                ser = sf.Series(env.array([vals[r_][c] for r_, c in hit], 'int64'), index=[(index[r_], columns[c]) for r_, c in hit])
+                r = f.assign.bloc[key](ser)
+            else:
+                r = f.assign.bloc[key].apply(lambda x: -x)
+            got.append([obs_container(env, r), snapshot(env, f) == before])
+        return got, [[exp, True]] * len(got)
+    return rt.untraced(run)
+
+
+_add(Cond('assign_bloc_value_forms_all_layouts', [(f'b{i}', 'bool') for i in range(5)] + [('form', 'int')], body_bloc_forms, ranges={'form': (0, 4)},
+        functions=['FrameAssignBLoc.__call__', 'TypeBlocks._assign_from_bloc_by_coordinate'],
+        bounds='2x4 int64 frame in every block layout (one-column blocks all 1-D or all 2-D); Boolean-frame key with 5 symbolic cells; value form symbolic over element / 2-D array / Frame / Series keyed by (row, column) / apply(function)',
+        route='Frame.assign.bloc[key](value | apply): exactly the True cells are replaced, each by the value meant for ITS (row, column); the original is unchanged', timeout=400))
+
+
+# ---------------------------------------------------------------- names (and level names) survive every functional update, flat and hierarchical
+
+def body_names_kept(env, hier, op, k):
+    from vf import rt
+    hier, op, k = bool(hier), _pick(tuple(range(9)), op), _pick((0, 1, 2), k)
+
+    def run():
+        sf = env.sf
+        if hier:
+            index = sf.IndexHierarchy.from_labels([('a', 1), ('a', 2), ('b', 1)], name=('outer', 'inner'))
+            columns = sf.IndexHierarchy.from_labels([('x', 1), ('x', 2), ('y', 1)], name=('co', 'ci'))
+        else:
+            index = sf.Index([10, 11, 12], name='rows')
+            columns = sf.Index(['p', 'q', 'r'], name='cols')
+        f = sf.Frame(env.array([[1, 2, 3], [4, 5, 6], [7, 8, 9]], 'int64'), index=index, columns=columns, name='fname')
+        s = f.iloc[:, 0].rename('sname')
+        ops = [lambda: f.drop.iloc[k], lambda: f.drop.iloc[:, k], lambda: f.drop.iloc[[k, (k + 1) % 3]], lambda: f.mask.iloc[k, k],
+               lambda: f.assign.iloc[k, k](0), lambda: f.astype.iloc[:, k](float) if hasattr(f.astype, 'iloc') else f.astype[f.columns.values.tolist()[k] if not hier else tuple(f.columns.values.tolist()[k])](float),
+               lambda: s.drop.iloc[k], lambda: s.assign.iloc[k](0), lambda: s.mask.iloc[k]]
+        r = ops[op]()
+        is_series = op >= 6
+        if op in (3, 8):
+            r = r.rename('fname' if op == 3 else 'sname')   # mask returns a NEW Boolean container (same labels); its own name is not the subject
+        if is_series:
+            got = [env.obs(r.name), env.obs(r.index.name), list(getattr(r.index, 'names', ())) if hier else None]
+            exp = ['sname' if True else None, env.obs(index.name), list(index.names) if hier else None]
+        else:
+            got = [env.obs(r.name), env.obs(r.index.name), env.obs(r.columns.name), list(r.index.names) if hier else None, list(r.columns.names) if hier else None]
+            exp = ['fname', env.obs(index.name), env.obs(columns.name), list(index.names) if hier else None, list(columns.names) if hier else None]
+        return got, exp
+    return rt.untraced(run)
+
+
+_add(Cond('names_kept_by_updates', [('hier', 'bool'), ('op', 'int'), ('k', 'int')], body_names_kept, ranges={'op': (0, 8), 'k': (0, 2)},
+        functions=['Frame._drop_iloc'],
+        bounds='3x3 frame (and a column Series of it) with named flat or named depth-2 hierarchical index and columns (symbolic); drop rows / drop columns / drop a row list / mask / assign / astype on the Frame, drop / assign / mask on the Series (symbolic), position symbolic',
+        route='functional updates keep the container name, the index / columns names and, for hierarchical labels, the level names', timeout=300))
+
+
 # ---------------------------------------------------------------- E3: unbounded second opinion on the integer kernel
 
 def extra_queries(tier):
